@@ -357,8 +357,12 @@ type g1Params struct {
 }
 
 func g1NewWriter(sink io.WriteCloser, p g1Params) (*kio.Writer, error) {
-	if p.API == "ctx" {
+	if p.API == "ctx" || p.API == "ctxskip" {
 		ctx := map[string]any{"transform": p.T, "entropy": p.E, "blockSize": uint(p.BS), "jobs": uint(p.J), "checksum": uint(p.CK)}
+		if p.API == "ctxskip" {
+			// the CLI's --skip option: blocks that look incompressible are stored in copy mode
+			ctx["skipBlocks"] = true
+		}
 		if p.Hint != 0 {
 			ctx["fileSize"] = p.Hint
 		}
@@ -453,7 +457,7 @@ type g1RParams struct {
 
 func g1NewReader(src io.ReadCloser, p g1RParams) (*kio.Reader, error) {
 	if p.HL {
-		if p.API == "ctx" {
+		if p.API == "ctx" || p.API == "ctxskip" {
 			// no bsVersion on purpose: the default must be usable
 			ctx := map[string]any{"jobs": uint(p.RJ), "transform": p.T, "entropy": p.E, "blockSize": uint(p.BS), "checksum": uint(p.CK), "headerless": true}
 			if p.Hint != 0 {
@@ -463,7 +467,7 @@ func g1NewReader(src io.ReadCloser, p g1RParams) (*kio.Reader, error) {
 		}
 		return kio.NewHeaderlessReader(src, uint(p.RJ), p.T, p.E, uint(p.BS), uint(p.CK), p.Hint, 6)
 	}
-	if p.API == "ctx" {
+	if p.API == "ctx" || p.API == "ctxskip" {
 		return kio.NewReaderWithCtx(src, map[string]any{"jobs": uint(p.RJ)})
 	}
 	return kio.NewReader(src, uint(p.RJ))
